@@ -566,8 +566,165 @@ func (d *driver) sweeps() {
 		}
 		d.c.CountOnly(fmt.Sprintf("npt-ms-%d", ms), true)
 	}
+	d.enumerations()
 	d.c.Dist("sweeps")
-	if !d.c.Quick() {
-		d.c.Exhaustive()
+	d.c.Exhaustive()
+}
+
+// enumerations: exhaustive small scopes.
+func (d *driver) enumerations() {
+	// (1) the tokenizer on every string over a six-letter alphabet up to a length bound
+	alpha := []byte("a=;\" ,")
+	maxLen := d.c.N(5, 7)
+	var rec func(prefix []byte)
+	rec = func(prefix []byte) {
+		for _, sep := range []int{';', ','} {
+			d.run(&Input{Kind: "aux", Header: "kv", Sep: sep, Strs: []S{S(prefix)}}, "enum-kv")
+		}
+		if len(prefix) == maxLen {
+			return
+		}
+		for _, c := range alpha {
+			rec(append(append([]byte{}, prefix...), c))
+		}
 	}
+	rec(nil)
+	d.c.Dist("enum.kv-strings")
+	// (2) every ordered pair of pool elements of every header (conflicts and double failures in both orders)
+	for _, h := range headerNames {
+		if h == "transports" {
+			continue
+		}
+		p := pools[h]
+		els := append(append([]string{}, p.valid...), p.invalid...)
+		prefix := ""
+		if len(p.prefixes) > 0 {
+			prefix = p.prefixes[0]
+		}
+		if h == "session" {
+			prefix = "id;"
+		}
+		if h == "authorization" {
+			prefix = "Digest "
+		}
+		for _, a := range els {
+			for _, b := range els {
+				d.run(&Input{Kind: "string", Header: h, Strs: []S{S(prefix + a + p.sep + b)}}, "enum-pairs-"+h)
+			}
+		}
+		if !d.c.Quick() && (h == "transport" || h == "range") {
+			for _, a := range els {
+				for _, b := range els {
+					for _, c := range p.invalid {
+						d.run(&Input{Kind: "string", Header: h, Strs: []S{S(prefix + a + p.sep + " " + b + p.sep + c)}}, "enum-triples-"+h)
+					}
+				}
+			}
+		}
+	}
+	d.c.Dist("enum.pool-pairs")
+	// (3) MIKEY: every single-byte change of one well-formed message
+	msg := MessageV{Version: 1, CSBID: 0x01020304, CS: []CSEntryV{{PolicyNo: 0, SSRC: 0xAABBCCDD, ROC: 0}}, Payloads: []PayloadV{
+		{Kind: "T", TSValue: 0x0102030405060708}, {Kind: "R", Data: S("0123456789abcdef")},
+		{Kind: "S", PolicyNo: 0, Params: []ParamV{{Type: 0, Value: "\x01"}, {Type: 1, Value: "\x10"}}},
+		{Kind: "K", Subs: []KeyDataV{{Type: 2, KV: 1, KeyData: "keykeykeykeykeyk", SPI: "spi!"}, {Type: 2, KV: 0, KeyData: "k2"}}}}}
+	base, err := msg.Go().Marshal()
+	if err == nil {
+		vals := []int{0, 1, 2, 5, 10, 11, 16, 20, 32, 33, 0x7f, 0x80, 0xff}
+		if !d.c.Quick() {
+			vals = vals[:0]
+			for v := 0; v < 256; v++ {
+				vals = append(vals, v)
+			}
+		}
+		for i := range base {
+			for _, v := range vals {
+				b := append([]byte{}, base...)
+				b[i] = byte(v)
+				d.run(&Input{Kind: "bytes", Header: "mikey", Strs: []S{S(b)}}, "enum-mikey-byte")
+			}
+		}
+		for n := 0; n <= len(base); n++ {
+			d.run(&Input{Kind: "bytes", Header: "mikey", Strs: []S{S(base[:n])}}, "enum-mikey-prefix")
+			d.run(&Input{Kind: "bytes", Header: "mikey", Strs: []S{S(append(append([]byte{}, base...), make([]byte, n%4)...))}}, "enum-mikey-pad")
+		}
+	}
+	// (3b) length-field boundaries (well-formed just below the limit, truncating above it) and
+	// unsupported type bytes
+	big := func(n int) S { return S(strings.Repeat("k", n)) }
+	for _, n := range []int{65530, 65531, 65532, 65535, 65536, 65540} {
+		k := MessageV{Version: 1, Payloads: []PayloadV{{Kind: "K", Subs: []KeyDataV{{Type: 2, KV: 0, KeyData: big(n)}}}}}
+		kind := "loose"
+		if n+4 <= 65535 {
+			kind = "value"
+		}
+		d.run(&Input{Kind: kind, Header: "mikey", Mikey: &k}, "boundary-kemac-len")
+	}
+	for _, n := range []int{15, 16, 255, 256, 300} {
+		r := MessageV{Version: 1, Payloads: []PayloadV{{Kind: "R", Data: big(n)}}}
+		kind := "loose"
+		if n >= 16 && n <= 255 {
+			kind = "value"
+		}
+		d.run(&Input{Kind: kind, Header: "mikey", Mikey: &r}, "boundary-rand-len")
+	}
+	for _, n := range []int{255, 256} {
+		sp := MessageV{Version: 1, Payloads: []PayloadV{{Kind: "S", Params: []ParamV{{Type: 1, Value: big(n)}}}}}
+		kind := "loose"
+		if n <= 255 {
+			kind = "value"
+		}
+		d.run(&Input{Kind: kind, Header: "mikey", Mikey: &sp}, "boundary-sp-len")
+		var cs []CSEntryV
+		for i := 0; i < n; i++ {
+			cs = append(cs, CSEntryV{PolicyNo: uint8(i), SSRC: uint32(i), ROC: 1})
+		}
+		d.run(&Input{Kind: kind, Header: "mikey", Mikey: &MessageV{Version: 1, CS: cs}}, "boundary-cs-count")
+	}
+	var many []ParamV
+	for i := 0; i < 256; i++ {
+		many = append(many, ParamV{Type: uint8(i), Value: big(254)})
+	}
+	d.run(&Input{Kind: "loose", Header: "mikey", Mikey: &MessageV{Version: 1, Payloads: []PayloadV{{Kind: "S", Params: many}}}}, "boundary-sp-total")
+	d.run(&Input{Kind: "value", Header: "mikey", Mikey: &MessageV{Version: 1, Payloads: []PayloadV{{Kind: "S", Params: many[:255]}}}}, "boundary-sp-total")
+	for i := 0; i < d.c.N(200, 5000); i++ {
+		v := d.g.message()
+		switch d.g.r.IntN(8) {
+		case 0:
+			v.Version = uint8(d.g.r.IntN(4))
+		case 1:
+			v.DataType = uint8(d.g.r.IntN(3))
+		case 2:
+			v.V = true
+		case 3:
+			v.PRFFunc = uint8(d.g.r.IntN(256))
+		case 4:
+			v.MapType = uint8(d.g.r.IntN(3))
+		default:
+			if len(v.Payloads) > 0 {
+				p := &v.Payloads[d.g.r.IntN(len(v.Payloads))]
+				p.EncrAlg, p.MacAlg, p.TSType, p.ProtType = uint8(d.g.r.IntN(2)), uint8(d.g.r.IntN(2)), uint8(d.g.r.IntN(2)), uint8(d.g.r.IntN(2))
+				for j := range p.Subs {
+					p.Subs[j].Type = uint8(d.g.pick(2, 2, 0, 1, 15, 18))
+					p.Subs[j].KV = uint8(d.g.pick(0, 1, 2, 15, 17))
+				}
+			}
+		}
+		d.run(&Input{Kind: "loose", Header: "mikey", Mikey: &v}, "loose-mikey")
+	}
+	d.c.Dist("enum.mikey-bytes")
+	// (4) base64: every string up to length 5 over a small alphabet
+	b64 := []byte("AQ=\n!/")
+	var rec2 func(prefix []byte)
+	rec2 = func(prefix []byte) {
+		d.run(&Input{Kind: "aux", Header: "b64", Strs: []S{S(prefix)}}, "enum-b64")
+		if len(prefix) == d.c.N(4, 6) {
+			return
+		}
+		for _, c := range b64 {
+			rec2(append(append([]byte{}, prefix...), c))
+		}
+	}
+	rec2(nil)
+	d.c.Dist("enum.b64-strings")
 }
